@@ -10,6 +10,7 @@ import gzip
 import hashlib
 import io
 import json
+import threading
 from dataclasses import dataclass, field
 from typing import Annotated, Any, ClassVar, Protocol
 
@@ -19,7 +20,7 @@ import zstandard
 from pyarrow import ipc
 
 from vgi_rpc.log import Level
-from vgi_rpc.rpc import CallContext, OutputCollector, ProducerState, Stream
+from vgi_rpc.rpc import AnnotatedBatch, CallContext, OutputCollector, ProducerState, Stream
 from vgi_rpc.utils import ArrowSerializableDataclass, Transient
 
 SCHEMA = pa.schema([("i", pa.int64()), ("v", pa.binary())])
@@ -46,13 +47,22 @@ def payload(step: int, row: int, size: int, comp: bool) -> bytes:
     return bytes(out[:size])
 
 
-def step_batch(idx: int, s: dict[str, Any]) -> tuple[list[int], list[bytes], dict[str, str] | None]:
-    """The content a scripted ``emit`` step produces (shared by the service and the model: it is *input* data)."""
+def step_batch(idx: int, s: dict[str, Any], tick_has_md: bool = False) -> tuple[list[int], list[bytes], dict[str, str] | None]:
+    """The content a scripted ``emit`` step produces (shared by the service and the model: it is *input* data).
+
+    A step with ``tk`` set makes its output depend on the tick its process() call received: from the second
+    process() call on, a producer tick carries no request metadata (one tick per turn under cap=None, so any other
+    answer would make the sequence depend on how many ticks a turn packs).  The model passes ``tick_has_md=False``;
+    the service passes what it actually saw.  Step 0 is left out: whether the first tick carries the init request's
+    metadata is a transport detail C11 does not speak about.
+    """
     rows = int(s.get("rows", 1))
     iv = [idx] * rows
     vv = [payload(idx, r, int(s.get("size", 0)), bool(s.get("comp", False))) for r in range(rows)]
-    md = {"u": f"m{idx}"} if s.get("md") else None
-    return iv, vv, md
+    u = f"m{idx}" if s.get("md") else None
+    if s.get("tk") and idx >= 1:
+        u = (u or "") + ("+tick-with-request-metadata" if tick_has_md else "+bare-tick")
+    return iv, vv, (None if u is None else {"u": u})
 
 
 # --------------------------------------------------------------------------- service
@@ -71,6 +81,14 @@ class ScriptCall(ArrowSerializableDataclass):
     script: str
 
 
+_TICK = threading.local()
+
+
+def _note_tick(tick: AnnotatedBatch) -> None:
+    md = tick.custom_metadata
+    _TICK.has_md = md is not None and len(md) > 0
+
+
 def _run_step(script: str, cur: int, out: OutputCollector, ctx: CallContext) -> int:
     steps = json.loads(script)
     if cur >= len(steps):
@@ -83,7 +101,7 @@ def _run_step(script: str, cur: int, out: OutputCollector, ctx: CallContext) -> 
     if kind == "raise":
         raise ValueError(f"boom{cur}")
     if kind in ("emit", "emit_finish"):
-        iv, vv, md = step_batch(cur, s)
+        iv, vv, md = step_batch(cur, s, bool(getattr(_TICK, "has_md", False)))
         out.emit(pa.RecordBatch.from_pydict({"i": iv, "v": vv}, schema=SCHEMA), metadata=md)
     if kind in ("finish", "emit_finish"):
         out.finish()
@@ -96,6 +114,10 @@ class FullState(ProducerState):
 
     script: str
     cur: int = 0
+
+    def process(self, input: AnnotatedBatch, out: OutputCollector, ctx: CallContext) -> None:
+        _note_tick(input)
+        self.produce(out, ctx)
 
     def produce(self, out: OutputCollector, ctx: CallContext) -> None:
         self.cur = _run_step(self.script, self.cur, out, ctx)
@@ -112,6 +134,10 @@ class CursorState(ProducerState):
 
     def bind_call_state(self, call_state: ArrowSerializableDataclass | None) -> None:
         self.cs = call_state
+
+    def process(self, input: AnnotatedBatch, out: OutputCollector, ctx: CallContext) -> None:
+        _note_tick(input)
+        self.produce(out, ctx)
 
     def produce(self, out: OutputCollector, ctx: CallContext) -> None:
         if self.cs is None:
